@@ -8,6 +8,7 @@ import (
 	"os/signal"
 	"strings"
 	"sync"
+	"sync/atomic"
 	"syscall"
 	"time"
 
@@ -79,16 +80,31 @@ func worker(jobPath string) {
 	if hang <= 0 {
 		hang = 8 * time.Second
 	}
+	// The watchdog measures progress, not the length of the job: it fires when no operation began or answered
+	// for hang (a job of many slow steps on a loaded machine is not a hang).
 	done := make(chan struct{})
+	var lastProgress atomic.Int64
+	lastProgress.Store(time.Now().UnixNano())
+	progress := func(s string) {
+		lastProgress.Store(time.Now().UnixNano())
+		say(s)
+	}
 	go func() {
-		select {
-		case <-done:
-		case <-time.After(hang):
-			say("HANG")
-			os.Exit(3)
+		tk := time.NewTicker(hang / 20)
+		defer tk.Stop()
+		for {
+			select {
+			case <-done:
+				return
+			case <-tk.C:
+				if time.Since(time.Unix(0, lastProgress.Load())) > hang {
+					say("HANG")
+					os.Exit(3)
+				}
+			}
 		}
 	}()
-	say("START")
+	progress("START")
 	resOf := func(err error) string {
 		switch {
 		case err == nil:
@@ -102,11 +118,11 @@ func worker(jobPath string) {
 	for i, op := range j.Ops {
 		switch op.Kind {
 		case "put":
-			say(fmt.Sprintf("B %d put %d", i, op.A))
-			say(fmt.Sprintf("R %d put %d %s", i, op.A, resOf(t.Put(u.addr(op.A), u.get(op.A, 1).stored))))
+			progress(fmt.Sprintf("B %d put %d", i, op.A))
+			progress(fmt.Sprintf("R %d put %d %s", i, op.A, resOf(t.Put(u.addr(op.A), u.get(op.A, 1).stored))))
 		case "del":
-			say(fmt.Sprintf("B %d del %d", i, op.A))
-			say(fmt.Sprintf("R %d del %d %s", i, op.A, resOf(t.Delete(u.addr(op.A)))))
+			progress(fmt.Sprintf("B %d del %d", i, op.A))
+			progress(fmt.Sprintf("R %d del %d %s", i, op.A, resOf(t.Delete(u.addr(op.A)))))
 		case "batch":
 			mp := map[oid.Address][]byte{}
 			var as []string
@@ -114,17 +130,17 @@ func worker(jobPath string) {
 				mp[u.addr(a)] = u.get(a, 1).stored
 				as = append(as, fmt.Sprint(a))
 			}
-			say(fmt.Sprintf("B %d batch %s", i, strings.Join(as, ",")))
-			say(fmt.Sprintf("R %d batch %s %s", i, strings.Join(as, ","), resOf(t.PutBatch(mp))))
+			progress(fmt.Sprintf("B %d batch %s", i, strings.Join(as, ",")))
+			progress(fmt.Sprintf("R %d batch %s %s", i, strings.Join(as, ","), resOf(t.PutBatch(mp))))
 		case "par":
 			var wg sync.WaitGroup
 			for _, a := range op.As {
 				wg.Add(1)
-				say(fmt.Sprintf("B %d put %d", i, a))
+				progress(fmt.Sprintf("B %d put %d", i, a))
 				go func() {
 					defer wg.Done()
 					r := resOf(t.Put(u.addr(a), u.get(a, 1).stored))
-					say(fmt.Sprintf("R %d put %d %s", i, a, r))
+					progress(fmt.Sprintf("R %d put %d %s", i, a, r))
 				}()
 			}
 			wg.Wait()
@@ -134,22 +150,37 @@ func worker(jobPath string) {
 			// restored and as[2] is put while the batch of as[0] may still be open; Close flushes.
 			signal.Ignore(syscall.SIGXFSZ)
 			var wg sync.WaitGroup
+			answered := map[int]chan struct{}{}
+			for _, a := range op.As {
+				answered[a] = make(chan struct{})
+			}
 			put := func(a int) {
 				defer wg.Done()
-				say(fmt.Sprintf("R %d put %d %s", i, a, resOf(t.Put(u.addr(a), u.get(a, 1).stored))))
+				r := resOf(t.Put(u.addr(a), u.get(a, 1).stored))
+				close(answered[a])
+				progress(fmt.Sprintf("R %d put %d %s", i, a, r))
 			}
+			// appear waits until the object file is linked; a Put that already answered without linking it
+			// (a failed write or link) ends the wait at once
 			appear := func(a int) int64 {
 				p := treePath(j.Root, j.Cfg.Depth, u.addr(a))
 				for k := 0; k < 4000; k++ {
 					if st, err := os.Stat(p); err == nil {
 						return st.Size()
 					}
-					time.Sleep(time.Millisecond)
+					select {
+					case <-answered[a]:
+						if st, err := os.Stat(p); err == nil {
+							return st.Size()
+						}
+						return -1
+					case <-time.After(time.Millisecond):
+					}
 				}
 				return -1
 			}
 			a, b, c := op.As[0], op.As[1], op.As[2]
-			say(fmt.Sprintf("B %d put %d", i, a))
+			progress(fmt.Sprintf("B %d put %d", i, a))
 			wg.Add(1)
 			go put(a)
 			if sz := appear(a); sz >= 0 {
@@ -158,12 +189,12 @@ func worker(jobPath string) {
 				lim := orig
 				lim.Cur = uint64(sz) + uint64(op.Cut)
 				kit.Must(unix.Setrlimit(unix.RLIMIT_FSIZE, &lim))
-				say(fmt.Sprintf("B %d put %d", i, b))
+				progress(fmt.Sprintf("B %d put %d", i, b))
 				r := resOf(t.Put(u.addr(b), u.get(b, 1).stored))
 				kit.Must(unix.Setrlimit(unix.RLIMIT_FSIZE, &orig))
-				say(fmt.Sprintf("R %d put %d %s", i, b, r))
+				progress(fmt.Sprintf("R %d put %d %s", i, b, r))
 			}
-			say(fmt.Sprintf("B %d put %d", i, c))
+			progress(fmt.Sprintf("B %d put %d", i, c))
 			wg.Add(1)
 			go put(c)
 			appear(c)
@@ -173,7 +204,7 @@ func worker(jobPath string) {
 			kit.Must(fmt.Errorf("unknown op kind %q", op.Kind))
 		}
 	}
-	say("DONE")
+	progress("DONE")
 	_ = t.Close() // Close takes the writer's locks: still under the watchdog
 	close(done)
 }
